@@ -5,6 +5,7 @@ package c11
 import (
 	"bytes"
 	"fmt"
+	"io"
 	"sort"
 
 	"seehuhn.de/go/pdf"
@@ -34,6 +35,8 @@ type pair struct {
 type target interface {
 	Get(ref pdf.Reference, canObjStm bool) (pdf.Native, error)
 	streamData(stm *pdf.Stream) ([]byte, error)
+	// streamRaw: the stored bytes after decryption, before any filter
+	streamRaw(stm *pdf.Stream) ([]byte, error)
 }
 
 // fileTarget is a target file reopened with the library's Reader.
@@ -41,6 +44,18 @@ type fileTarget struct{ *pdf.Reader }
 
 func (t fileTarget) streamData(stm *pdf.Stream) ([]byte, error) {
 	return pdf.ReadAll(t.Reader, nil, stm, 1<<20)
+}
+
+func (t fileTarget) streamRaw(stm *pdf.Stream) ([]byte, error) {
+	rc, err := pdf.RawStreamReader(t.Reader, stm)
+	if err != nil {
+		return nil, err
+	}
+	data, err := io.ReadAll(io.LimitReader(rc, 1<<20))
+	if cerr := rc.Close(); err == nil {
+		err = cerr
+	}
+	return data, err
 }
 
 // memTarget is a target described directly as data: a table of objects and,
@@ -88,6 +103,10 @@ func (m *memTarget) streamData(stm *pdf.Stream) ([]byte, error) {
 	return d, nil
 }
 
+// streamRaw: for a stream whose data is opaque the description holds the
+// stored bytes.
+func (m *memTarget) streamRaw(stm *pdf.Stream) ([]byte, error) { return m.streamData(stm) }
+
 // checker is the oracle: it walks the source graph (known from the case, not
 // read through the library) and the reopened target in lockstep, learning
 // the relation "source object -> target object" as it goes.
@@ -110,13 +129,27 @@ type checker struct {
 	seen     map[pair]bool
 	work     []pair
 
+	// trans is the copier's own translation table right after the step that
+	// is being judged (read through the test hook; an entry, once made, only
+	// changes by a Redirect, which is a step of its own). It takes no part in
+	// any judgement; it only narrows the fingerprint of a failure found at a
+	// reference inside /DecodeParms (see parmEntry).
+	trans map[pdf.Reference]pdf.Reference
+	// parmLit: target objects first reached through a reference inside
+	// /DecodeParms that still is, literally, the source reference although the
+	// copier's table translates that reference to something else
+	parmLit  map[pair]string
+	misWired bool // a failure of the class fpParmNotTranslated has been recorded
+
 	unspecified int // positions where the statement is silent
 }
+
+const fpParmNotTranslated = "decodeparms-reference-not-translated"
 
 func newChecker(s *source, tgtCfg string, tr target, f *fails) *checker {
 	return &checker{src: s, g: s.g, tgtCfg: tgtCfg, tr: tr, f: f,
 		m: map[int]pdf.Reference{}, mChain: map[int]bool{}, img: map[pdf.Reference]int{},
-		redirect: map[int]pdf.Reference{}, fresh: map[pdf.Reference]int{}, seen: map[pair]bool{}}
+		redirect: map[int]pdf.Reference{}, fresh: map[pdf.Reference]int{}, seen: map[pair]bool{}, parmLit: map[pair]string{}}
 }
 
 func (ck *checker) cfgTag() string { return "src=" + ck.src.cfg + ";tgt=" + ck.tgtCfg }
@@ -350,6 +383,13 @@ func (ck *checker) push(t int, tt pdf.Reference) {
 
 func (ck *checker) drain() {
 	for len(ck.work) > 0 {
+		if ck.misWired {
+			// the relation source object -> target object was learned through a
+			// reference that is known to be wrong: what it says about the rest
+			// of the graph are consequences, not classes of their own
+			ck.work = nil
+			return
+		}
 		p := ck.work[len(ck.work)-1]
 		ck.work = ck.work[:len(ck.work)-1]
 		tv, err := ck.tr.Get(p.tgt, true)
@@ -357,12 +397,104 @@ func (ck *checker) drain() {
 			ck.f.add("target-object-unreadable:"+ck.kindTag(p.src)+";"+ck.cfgTag(), "copy of object %d: target object %v does not read: %v", p.src, p.tgt, err)
 			continue
 		}
+		// what is wrong with an object that was reached through an untranslated
+		// reference inside /DecodeParms belongs to that class
+		saved := ck.f
+		lit, viaParm := ck.parmLit[p]
+		if viaParm {
+			ck.f = &fails{}
+		}
+		before := len(ck.work)
 		if o := ck.g[p.src]; tv == nil && !((o.K == 'A' || o.K == 'D') && len(o.It) == 0) {
 			// (an empty array or dictionary that became null has its own class)
 			ck.f.add("copied-object-is-null", "copy %v of object %d (%s): the target object is null", p.tgt, p.src, o)
-			continue
+		} else {
+			ck.plainValue(ck.g[p.src], p.src, tv, fmt.Sprintf("copy %v of object %d", p.tgt, p.src))
 		}
-		ck.plainValue(ck.g[p.src], p.src, tv, fmt.Sprintf("copy %v of object %d", p.tgt, p.src))
+		if viaParm {
+			sub := ck.f
+			ck.f = saved
+			for _, x := range sub.list {
+				ck.f.add(fpParmNotTranslated, "%s; the object it leads to in the target is not a copy of source object %d [%s] %s", lit, p.src, x.fp, x.what)
+				ck.misWired = true
+			}
+			// what is reached from there is reached through the same reference
+			for _, pr := range ck.work[before:] {
+				if _, marked := ck.parmLit[pr]; !marked {
+					ck.parmLit[pr] = lit
+				}
+			}
+		}
+	}
+}
+
+// parmEntry judges the reference inside the filter parameter dictionary of a
+// stream of the parm-reference family. The copier may respell /Filter and
+// /DecodeParms (inline indirect parts, turn a name into an array ...): the
+// parameter dictionary is looked up by the meaning of the two entries, not by
+// their form. The reference inside it is a reference of the graph like every
+// other: it must lead to the copy of the object it led to in the source, the
+// same target object as along every other path (refItem).
+func (ck *checker) parmEntry(o Obj, j int, p Item, d pdf.Dict, where string) {
+	ps, _ := parmOf(o.V)
+	key := parmKeys[ps.filter]
+	w := fmt.Sprintf("%s /DecodeParms (of /%s) /%s", where, parmFilterNames[ps.filter], key)
+	pd, hasFilter, ok := locateParms(func(x pdf.Object) (pdf.Object, bool) {
+		ref, isRef := x.(pdf.Reference)
+		if !isRef {
+			return x, true
+		}
+		_, v, ok := ck.resolveTgt(ref, "stream-dict", w)
+		return v, ok
+	}, d, parmFilterNames[ps.filter])
+	if !ok {
+		return // reported by resolveTgt
+	}
+	if !hasFilter {
+		if stmRawOnly(o.V) {
+			// opaque data can only be data of the filter it was stored for
+			ck.f.add("stream-filter-lost:stream="+stmNames[o.V], "%s: the source stream holds /%s data (opaque, nothing can re-encode it), the target stream does not name that filter: %s", where, parmFilterNames[ps.filter], hx.Show(d))
+			return
+		}
+		// the target stream does not use the filter any more: the statement
+		// only demands the decoded bytes
+		ck.unspecified++
+		return
+	}
+	dead, undef := ck.isDead(p)
+	if undef {
+		ck.unspecified++
+		return
+	}
+	tv, present := pd[key]
+	if !present || tv == nil {
+		if !dead {
+			ck.f.add("decodeparms-entry-lost", "%s: the source has a reference here, the target has no such entry (stream dictionary %s)", w, hx.Show(d))
+		}
+		return
+	}
+	// fingerprint only: is this, literally, the source reference, while the
+	// copier's own table translates that reference differently?
+	lit := ""
+	if p.K == 'r' && tv == pdf.Object(ck.src.refs[p.R]) && ck.trans[ck.src.refs[p.R]] != ck.src.refs[p.R] {
+		lit = fmt.Sprintf("%s: the target has %v, which is the number of the object in the SOURCE (the copier translates %v to %v elsewhere), stream %s", w, tv, tv, ck.trans[ck.src.refs[p.R]], stmNames[o.V])
+	}
+	saved := ck.f
+	if lit != "" {
+		ck.f = &fails{}
+	}
+	before := len(ck.work)
+	ck.item(p, j, 0, tv, w)
+	if lit != "" {
+		sub := ck.f
+		ck.f = saved
+		for _, x := range sub.list {
+			ck.f.add(fpParmNotTranslated, "%s [%s] %s", lit, x.fp, x.what)
+			ck.misWired = true
+		}
+		for _, pr := range ck.work[before:] {
+			ck.parmLit[pr] = lit
+		}
 	}
 }
 
@@ -481,9 +613,15 @@ func (ck *checker) plainValue(o Obj, j int, tv pdf.Object, where string) {
 			ck.f.add("value-differs:stream", "%s: want a stream, target has %s", where, hx.Show(tv))
 			return
 		}
-		ck.dictEntries([]pdf.Name{stmKey}, o.It, j, 0, stm.Dict, stmIgnore, where)
+		pIt, kIt, kPos := o.stmParts()
+		ck.dictEntries([]pdf.Name{stmKey}, kIt, j, kPos, stm.Dict, stmIgnore, where)
 		if ck.tr == nil {
 			return
+		}
+		if len(pIt) > 0 {
+			// /Filter and /DecodeParms themselves may be respelled; a reference
+			// inside the parameter dictionary is a reference of the graph
+			ck.parmEntry(o, j, pIt[0], stm.Dict, where)
 		}
 		if !stmDecodable(o.V) {
 			// /Filter and /DecodeParms of the source do not fit together: there
@@ -492,6 +630,26 @@ func (ck *checker) plainValue(o Obj, j int, tv pdf.Object, where string) {
 			return
 		}
 		tag := "stream=" + stmNames[o.V] + ";" + ck.cfgTag()
+		if stmRawOnly(o.V) {
+			// opaque data that nothing decodes (in the source either): as long
+			// as the target declares the same filter chain, the same decoded
+			// bytes means the same stored bytes
+			ps, _ := parmOf(o.V)
+			wantF, _ := parmInlined(ps, nil)
+			if !sameFilterChain(stm.Dict["Filter"], wantF) {
+				ck.unspecified++
+				return
+			}
+			data, err := ck.tr.streamRaw(stm)
+			if err != nil {
+				ck.f.add("stream-unreadable:"+tag, "%s: the stored bytes of the stream do not read in the target: %v (dict %s)", where, err, hx.Show(stm.Dict))
+				return
+			}
+			if want := parmRaw(ps, plainData(j, o.V)); !bytes.Equal(data, want) {
+				ck.f.add("stream-bytes-differ:"+tag, "%s: the stream holds %d bytes %q..., want %d bytes %q... (opaque data, compared before decoding)", where, len(data), head(data), len(want), head(want))
+			}
+			return
+		}
 		data, err := ck.tr.streamData(stm)
 		if err != nil {
 			ck.f.add("stream-undecodable:"+tag, "%s: stream does not decode in the target: %v (dict %s)", where, err, hx.Show(stm.Dict))
@@ -503,6 +661,31 @@ func (ck *checker) plainValue(o Obj, j int, tv pdf.Object, where string) {
 	case 'r':
 		ck.item(o.It[0], j, 0, tv, where)
 	}
+}
+
+// sameFilterChain: the direct /Filter value got names the same filters as want
+// (a name and a one-element array are the same chain).
+func sameFilterChain(got, want pdf.Object) bool {
+	list := func(x pdf.Object) (pdf.Array, bool) {
+		switch v := x.(type) {
+		case pdf.Name:
+			return pdf.Array{v}, true
+		case pdf.Array:
+			return v, true
+		}
+		return nil, false
+	}
+	g, ok1 := list(got)
+	w, ok2 := list(want)
+	if !ok1 || !ok2 || len(g) != len(w) {
+		return false
+	}
+	for i := range g {
+		if g[i] != w[i] {
+			return false
+		}
+	}
+	return true
 }
 
 func head(b []byte) []byte {
@@ -574,6 +757,10 @@ func judge(s *source, prog []Op, tgtCfg string, ex *execution) (f fails, outcome
 	lastR := map[int]pdf.Reference{} // by lastKey
 	for k, st := range ex.steps {
 		where := fmt.Sprintf("step %d (%s)", k, st.op)
+		ck.trans = map[pdf.Reference]pdf.Reference{}
+		for _, kv := range st.trans {
+			ck.trans[kv[0]] = kv[1]
+		}
 		switch st.op.K {
 		case 'D':
 			ck.redirect[st.op.J] = st.ref
